@@ -10,6 +10,8 @@ Case kinds
   ref  : reference data round trip (genome / annotation / proteome / coding transcripts)
   ver  : version-mismatch rejection by every consumer of an index
   fly  : on-the-fly load_references pools
+  src  : --reference-source given / not given on GENCODE- and ENSEMBL-style references whose chromosome names make the
+         built-in guess agree or disagree: index route vs raw-file route under the SAME options, and vs ground truth
 Ops: ['g', ref, pidx, force, symlink?] | ['u', pidx, force]
 Observation after an op:
   out      'ok' | 'SystemExit:<code>' | exception class name
@@ -482,8 +484,88 @@ def do_fly(c):
     env.close()
     return {'fly': out, 'index': pools, 'gen': o}
 
+# ----------------------------------------------------------------------------- --reference-source
+def write_styled(world, d):
+    """reference files in GENCODE style (gen_reference's writer) or ENSEMBL style (gene_biotype / transcript_biotype
+    attributes, source column 'ensembl', ENSEMBL protein FASTA headers; ids of the world are already unversioned)"""
+    if world.get('style') != 'ENSEMBL':
+        return write_world(world, d)
+    g, a, p = G.write_world(world, d)
+    txt = open(a).read().replace('gene_type "', 'gene_biotype "').replace('transcript_type "', 'transcript_biotype "')
+    txt = txt.replace('\tHAVANA\t', '\tensembl\t')
+    open(a, 'w').write(txt)
+    prots = world_prots(world)
+    with open(p, 'w') as f:
+        for gene in world['genes']:
+            for tx in gene['transcripts']:
+                if tx['cds']:
+                    f.write('>%s.1 pep chromosome:GRCh38:%s:%d:%d:%d gene:%s.1 transcript:%s.1 gene_biotype:%s transcript_biotype:%s\n%s\n' % (
+                        tx['protein_id'], gene['chrom'], gene['start'] + 1, gene['end'], gene['strand'], gene['id'], tx['id'],
+                        gene['biotype'], tx['biotype'], prots[tx['id']]))
+    return g, a, p
+
+def src_view(anno, proteome, pool, source):
+    v = {'source': source, 'tx': {}, 'coding': sorted(k for k in anno.transcripts.keys() if anno.transcripts[k].is_protein_coding)}
+    for k in anno.transcripts.keys():
+        m = anno.transcripts[k]
+        try:
+            bt = m.transcript.biotype
+        except BaseException as e:  # noqa
+            bt = 'E:' + type(e).__name__
+        v['tx'][k] = {'source': getattr(m.transcript, 'source', None), 'biotype': bt, 'gene': m.gene_id,
+                      'exons': [[int(x.location.start), int(x.location.end)] for x in m.exon],
+                      'coding': bool(m.is_protein_coding)}
+    v['proteome'] = {k: str(x.seq) for k, x in proteome.items()} if proteome is not None else None
+    v['pool'] = sorted(str(x) for x in pool) if pool is not None else None
+    return v
+
+def do_src(c):
+    w = c['world']
+    base = os.path.join(WD, 'src')
+    shutil.rmtree(base, ignore_errors=True)
+    os.makedirs(os.path.join(base, 'ref'))
+    g, a, p = write_styled(w, os.path.join(base, 'ref'))
+    idx = os.path.join(base, 'index')
+    opt, flag, ps = c['option'], bool(c['flag']), c['params']
+    res = {}
+    # ---- through the index
+    argv = ['generateIndex', '-g', g, '-a', a, '-p', p, '-o', idx, '--quiet'] + cl(ps)
+    if opt:
+        argv += ['--reference-source', opt]
+    if flag:
+        argv.append('--invalid-protein-as-noncoding')
+    out = outcome(lambda: _cli.run(argv))
+    if out == 'ok' and c.get('update'):
+        out2 = outcome(lambda: _cli.run(['updateIndex', '--index-dir', idx, '--quiet'] + cl(c['update'])))
+        res['update'] = out2
+    res['gen'] = out
+    if out == 'ok':
+        try:
+            ns = argparse.Namespace(index_dir=Path(idx))
+            _, anno, prot, pool = common.load_references(ns, load_genome=False, load_canonical_peptides=True,
+                                                         load_proteome=True, invalid_protein_as_noncoding=flag,
+                                                         cleavage_params=cp(ps))
+            res['index'] = src_view(anno, prot, pool, read_meta(idx)['source'])
+            res['index']['coding_file'] = sorted(IndexDir(Path(idx)).load_coding_tx())
+        except BaseException as e:  # noqa
+            res['index'] = {'exc': type(e).__name__}
+    # ---- from the raw files, under the same options
+    try:
+        ns = argparse.Namespace(index_dir=None, genome_fasta=Path(g), annotation_gtf=Path(a), proteome_fasta=Path(p),
+                                reference_source=opt, cleavage_rule=ps['rule'], cleavage_exception=ps['exc'],
+                                miscleavage=ps['k'], min_mw=ps['min_mw'], min_length=ps['min_len'], max_length=ps['max_len'])
+        _, anno, prot, pool = common.load_references(ns, load_genome=False, load_canonical_peptides=True, load_proteome=True,
+                                                     invalid_protein_as_noncoding=flag, cleavage_params=cp(ps))
+        res['raw'] = src_view(anno, prot, pool, anno.source)
+    except BaseException as e:  # noqa
+        res['raw'] = {'exc': type(e).__name__}
+    shutil.rmtree(base, ignore_errors=True)
+    return res
+
 def handle(c):
     k = c['kind']
+    if k == 'src':
+        return do_src(c)
     if k == 'tree':
         return do_tree(c)
     if k == 'seq':
